@@ -2,20 +2,30 @@ import AnsiProofs.Lemmas.Basic
 /-
   AnsiProofs.Lemmas.Pad — helper lemmas for property C12 (`ljust`, `rjust`, `center`, `zfill`,
   `assign_str`, the `[fill][sign][align][width]` part of a format spec).
+  Everything lives in `namespace PadL` (so `Fmts.foo` below is `PadL.Fmts.foo`).
 
   * sorted association lists: `Fmts.erase` as a filter, `toFun_erase`, `sorted_erase`,
     `shiftKeys` (`toFun_shiftKeys_*`, `sorted_shiftKeys`), the structural form of
-    "move the end point" (`erase_set_last`)
+    "move the end point" (`Fmts.set_last`, `Fmts.erase_last`)
+  * things that only depend on the sequence of points (`replayOk_congr`, `settings_congr`)
   * the function representation: `prevFn`, `activeFn_congr`, `activeFn_const`, shifts,
     erasing / setting the end point
-  * things that only depend on the sequence of points (`replayOk`, `Fmts.settings`)
-  * the total description of `active` after each padding operation, and `WF` preservation
-  * the hand-rolled regex matcher on the three justification patterns
+  * the three table operations behind padding — A `padExt` (end point out, shift all keys but 0,
+    end point to the new end), B `shiftKeys _ _ true`, C `shiftKeys _ _ false` — each with the total
+    description of `active` afterwards (`active_padExt`, `active_shiftKeep`, `active_shift`) and
+    `WF` preservation (`wf_padExt`, `wf_shiftKeep`, `wf_shift`)
+  * `namespace AStr`: `ljust`/`rjust`/`center`/`assignStr` in terms of A, B, C
+  * `namespace Rx`: the hand-rolled regex matcher on the three justification patterns and on the
+    spec splitter; the grammar (`parse`, `Mem`, `stripNl`) and `applyStringFormat_eq`,
+    `toStr_grammar`
 -/
+
+namespace PadL
 
 /-! ## Sorted association lists: membership, `erase`, `shiftKeys` -/
 
 namespace Fmts
+open _root_.Fmts
 
 theorem toFun_of_mem {f : Fmts} (h : SortedKeys f) {k : Nat} {p : Point} (hm : (k, p) ∈ f) :
     toFun f k = p := by
@@ -249,6 +259,7 @@ theorem shiftKeys_zero (f : Fmts) (keep : Bool) : shiftKeys f 0 keep = f := by
 /-! ### structural form of "move the end point" -/
 
 namespace Fmts
+open _root_.Fmts
 
 /-- setting a key above all present keys appends -/
 theorem set_last {h : Fmts} {m : Nat} (p : Point) (hlt : ∀ kp ∈ h, kp.1 < m) :
@@ -449,7 +460,7 @@ theorem activeFn_shiftKeep_sub {g g' : Nat → Point} {d : Nat} (h0 : g' 0 = g 0
 theorem act_eq_activeFn {x : AStr} (hw : WF x) (j : Nat) :
     act x j = activeFn (Fmts.toFun x.fmts) j := active_eq_activeFn _ hw.sorted j
 
-theorem WF.toFun_beyond {x : AStr} (hw : WF x) {k : Nat} (hk : x.len < k) :
+theorem wf_toFun_beyond {x : AStr} (hw : WF x) {k : Nat} (hk : x.len < k) :
     Fmts.toFun x.fmts k = {} := by
   apply Fmts.toFun_of_not_mem
   intro p hp
@@ -457,8 +468,8 @@ theorem WF.toFun_beyond {x : AStr} (hw : WF x) {k : Nat} (hk : x.len < k) :
   simp at this; omega
 
 /-- positions at or beyond the end report nothing -/
-theorem WF.act_ge {x : AStr} (hw : WF x) {j : Nat} (hj : x.len ≤ j) : act x j = [] := by
-  rw [act_eq_activeFn hw, activeFn_const hj (fun k a _ => hw.toFun_beyond a), ← act_eq_activeFn hw]
+theorem wf_act_ge {x : AStr} (hw : WF x) {j : Nat} (hj : x.len ≤ j) : act x j = [] := by
+  rw [act_eq_activeFn hw, activeFn_const hj (fun k a _ => wf_toFun_beyond hw a), ← act_eq_activeFn hw]
   exact hw.closed
 
 /-- what the last character reports (`[]` for the empty text) -/
@@ -474,7 +485,7 @@ theorem lastAct_pos {x : AStr} (hw : WF x) (h : 0 < x.len) : lastAct x = act x (
 theorem lastAct_zero {x : AStr} (h : x.len = 0) : lastAct x = [] := by
   unfold lastAct; rw [h]; rfl
 
-theorem WF.step_last {x : AStr} (hw : WF x) :
+theorem wf_step_last {x : AStr} (hw : WF x) :
     stepPoint (lastAct x) (Fmts.toFun x.fmts x.len) = [] := by
   unfold lastAct
   rw [← activeFn_eq_step_prev, ← act_eq_activeFn hw]
@@ -486,7 +497,7 @@ theorem lastAct_nodup {x : AStr} (hw : WF x) : ((lastAct x).map (·.id)).Nodup :
   · rw [lastAct_zero (by omega)]; simp
 
 /-- `WF` only looks at the length of the text and the table -/
-theorem WF.of_eq {a b : AStr} (hw : WF a) (hl : b.len = a.len) (hf : b.fmts = a.fmts) : WF b where
+theorem wf_of_eq {a b : AStr} (hw : WF a) (hl : b.len = a.len) (hf : b.fmts = a.fmts) : WF b where
   sorted := by rw [hf]; exact hw.sorted
   bound := by rw [hf, hl]; exact hw.bound
   noAddEnd := by rw [hf, hl]; exact hw.noAddEnd
@@ -534,7 +545,7 @@ theorem wf_shift {x y : AStr} (hw : WF x) (left right : Nat) (hl : y.len = x.len
     · exact hw.nodup _
   closed := by
     rw [hf, active_shift hw.sorted, hl, if_neg (by omega)]
-    exact hw.act_ge (by omega)
+    exact wf_act_ge hw (by omega)
   coherent := by rw [hf, settings_congr (map_snd_shiftKeys _ _ _)]; exact hw.coherent
 
 /-! ## Operation B: shift every key but 0 (`rjust` with extension) -/
@@ -669,7 +680,7 @@ theorem active_padExt {x : AStr} (hw : WF x) {left L : Nat} (hL : x.len + left <
   have hshb : ∀ k, L ≤ k → Fmts.toFun (shiftKeys (x.fmts.erase x.len) left true) k = {} := by
     intro k hk
     rw [toFun_shiftKeys_true hse, if_neg (by omega), if_neg (by omega), hh, if_neg (by omega)]
-    exact hw.toFun_beyond (by omega)
+    exact wf_toFun_beyond hw (by omega)
   -- value of the shifted table at any index below the new end
   have hbelow : ∀ i, activeFn (Fmts.toFun (shiftKeys (x.fmts.erase x.len) left true)) i =
       if i - left < x.len then act x (i - left) else lastAct x := by
@@ -678,7 +689,7 @@ theorem active_padExt {x : AStr} (hw : WF x) {left L : Nat} (hL : x.len + left <
     by_cases hi : i - left < x.len
     · rw [if_pos hi, activeFn_eraseEnd_lt hh hi, act_eq_activeFn hw]
     · rw [if_neg hi]
-      exact activeFn_eraseEnd_ge hh (fun k hk => hw.toFun_beyond hk) (by omega)
+      exact activeFn_eraseEnd_ge hh (fun k hk => wf_toFun_beyond hw hk) (by omega)
   by_cases hj : L ≤ j
   · rw [if_pos hj, activeFn_setEnd_ge hg' hshb hj]
     have hp : prevFn (Fmts.toFun (shiftKeys (x.fmts.erase x.len) left true)) L = lastAct x := by
@@ -688,7 +699,7 @@ theorem active_padExt {x : AStr} (hw : WF x) {left L : Nat} (hL : x.len + left <
         show activeFn _ L' = _
         rw [hbelow L', if_neg (by omega)]
     rw [hp]
-    exact hw.step_last
+    exact wf_step_last hw
   · rw [if_neg hj, activeFn_setEnd_lt hg' (by omega)]
     exact hbelow j
 
@@ -728,6 +739,7 @@ theorem wf_padExt {x y : AStr} (hw : WF x) {left L : Nat} (hL : x.len + left < L
 set_option linter.unusedSimpArgs false
 
 namespace AStr
+open _root_.AStr
 
 theorem len_mk (s : Str) (f : Fmts) : (AStr.mk s f).len = s.length := rfl
 
@@ -916,3 +928,910 @@ theorem assignStr_fmts_same {x : AStr} {t : Str} (h : x.len = t.length) :
   simp [h]
 
 end AStr
+
+/-! ## The hand-rolled regex matcher on the justification patterns
+
+  `matchStart_reAligned` / `matchStart_reLeft`: closed forms of the three patterns of
+  `_apply_string_format` (`try3 … try0` = the alternatives in the matcher's priority order);
+  `stripNl`, `form3 … form0`, `parse`: the same alternatives as a grammar on the text without one
+  final newline; `applyStringFormat_eq`: `_apply_string_format` decided by the grammar. -/
+
+namespace Re
+open _root_.Re
+theorem go_some {α} (s : Str) (caps : Caps) (k : Str → Caps → Option α) (n : Nat) (a : α)
+    (h : k (s.drop n) caps = some a) : m.go s caps k n = some a := by
+  cases n with
+  | zero => rw [m.go.eq_1]; simpa using h
+  | succ n => rw [m.go.eq_2, h]
+
+theorem go_none {α} (s : Str) (caps : Caps) (k : Str → Caps → Option α) (n : Nat)
+    (h : ∀ i, i ≤ n → k (s.drop i) caps = none) : m.go s caps k n = none := by
+  induction n with
+  | zero => rw [m.go.eq_1]; simpa using h 0 (Nat.le_refl _)
+  | succ n ih =>
+    rw [m.go.eq_2, h (n + 1) (Nat.le_refl _)]
+    exact ih (fun i hi => h i (by omega))
+end Re
+
+namespace Rx
+open _root_.Re Render
+
+theorem drop_lt_takeWhile (p : Char → Bool) (s : Str) (i : Nat) (hi : i < (s.takeWhile p).length) :
+    ∃ c rest, s.drop i = c :: rest ∧ p c = true := by
+  induction s generalizing i with
+  | nil => simp at hi
+  | cons a s ih =>
+    by_cases ha : p a = true
+    · rw [List.takeWhile_cons_of_pos ha] at hi
+      cases i with
+      | zero => exact ⟨a, s, rfl, ha⟩
+      | succ i => 
+        simp only [List.length_cons, Nat.add_lt_add_iff_right] at hi
+        simpa using ih i hi
+    · rw [List.takeWhile_cons_of_neg ha] at hi
+      simp at hi
+
+theorem drop_takeWhile_length (p : Char → Bool) (s : Str) :
+    s.drop (s.takeWhile p).length = s.dropWhile p := by
+  conv => lhs; arg 2; rw [← List.takeWhile_append_dropWhile (p := p) (l := s)]
+  exact List.drop_left
+
+theorem take_takeWhile_length (p : Char → Bool) (s : Str) :
+    s.take (s.takeWhile p).length = s.takeWhile p := by
+  conv => lhs; arg 2; rw [← List.takeWhile_append_dropWhile (p := p) (l := s)]
+  exact List.take_left
+
+def tailRe : Re := .seq (.cap 3 (.star Py.isDigit)) .eos
+
+def okTail (r : Str) : Bool := (r.dropWhile Py.isDigit).isEmpty || r.dropWhile Py.isDigit == ['\n']
+
+theorem m_tailRe (r : Str) (caps : Caps) :
+    Re.m tailRe r caps (fun _ c => some c) =
+      if okTail r then some ((3, r.takeWhile Py.isDigit) :: caps.filter (·.1 != 3)) else none := by
+  unfold tailRe
+  simp only [Re.m]
+  by_cases hok : okTail r = true
+  · rw [if_pos hok]
+    apply Re.go_some
+    rw [drop_takeWhile_length]
+    unfold okTail at hok
+    have hlen : r.length - (r.dropWhile Py.isDigit).length = (r.takeWhile Py.isDigit).length := by
+      have := congrArg List.length (List.takeWhile_append_dropWhile (p := Py.isDigit) (l := r))
+      rw [List.length_append] at this; omega
+    rw [hlen, take_takeWhile_length]
+    simp at hok
+    simp [hok]
+  · rw [if_neg hok]
+    apply Re.go_none
+    intro i hi
+    rcases Nat.lt_or_eq_of_le hi with hlt | heq
+    · obtain ⟨c, rest, hd, hc⟩ := drop_lt_takeWhile _ _ _ hlt
+      rw [hd]
+      have : c ≠ '\n' := by
+        intro e; subst e; simp [Py.isDigit] at hc
+      simp [this]
+    · subst heq
+      rw [drop_takeWhile_length]
+      unfold okTail at hok
+      simp at hok
+      simp [hok]
+
+theorem reAligned_eq (a : Char) : reAligned a =
+  .seq (.cap 1 (.opt (.cls dot))) (.seq (.cap 2 (.opt (.cls sign))) (.seq (.cls (· == a)) tailRe)) := rfl
+
+theorem reLeft_eq : reLeft =
+  .seq (.opt (.seq (.cap 1 (.opt (.cls dot))) (.seq (.cap 2 (.opt (.cls sign))) (.cls (· == '<'))))) tailRe := rfl
+
+abbrev tw (r : Str) : Str := r.takeWhile Py.isDigit
+
+def try3 (X : Char) : Str → Option Caps
+  | f :: g :: x :: r =>
+    if dot f && sign g && x == X && okTail r then some [(3, tw r), (2, [g]), (1, [f])] else none
+  | _ => none
+def try2 (X : Char) : Str → Option Caps
+  | f :: x :: r => if dot f && x == X && okTail r then some [(3, tw r), (2, []), (1, [f])] else none
+  | _ => none
+def tryS (X : Char) : Str → Option Caps
+  | g :: x :: r => if sign g && x == X && okTail r then some [(3, tw r), (2, [g]), (1, [])] else none
+  | _ => none
+def try1 (X : Char) : Str → Option Caps
+  | x :: r => if x == X && okTail r then some [(3, tw r), (2, []), (1, [])] else none
+  | _ => none
+def try0 (s : Str) : Option Caps := if okTail s then some [(3, tw s)] else none
+
+def alignedRef (X : Char) (s : Str) : Option Caps :=
+  (try3 X s).or ((try2 X s).or ((tryS X s).or (try1 X s)))
+
+theorem ite_and' {α} (P Q : Prop) [Decidable P] [Decidable Q] (a b : α) :
+    (if P ∧ Q then a else b) = if P then (if Q then a else b) else b := by
+  by_cases P <;> by_cases Q <;> simp [*]
+
+theorem matchStart_reAligned (X : Char) (s : Str) :
+    Re.matchStart (reAligned X) s = alignedRef X s := by
+  rw [reAligned_eq]
+  unfold Re.matchStart alignedRef
+  simp only [Re.m, m_tailRe]
+  rcases s with _ | ⟨a, _ | ⟨b, _ | ⟨c, r⟩⟩⟩
+  · simp [try3, try2, tryS, try1]
+  · simp [try3, try2, tryS, try1, ite_and']
+  · simp only [try3, try2, tryS, try1, List.filter, ite_and', Bool.and_eq_true]
+    by_cases h1 : dot a = true <;> by_cases h2 : (b == X) = true <;> by_cases h3 : okTail [] = true <;>
+      by_cases h4 : sign a = true <;> simp [h1, h2, h3, h4, tw]
+  · simp only [try3, try2, tryS, try1, List.filter, ite_and', Bool.and_eq_true]
+    by_cases h1 : dot a = true <;> by_cases h2 : sign b = true <;> by_cases h3 : (c == X) = true <;>
+      by_cases h4 : okTail r = true <;> by_cases h5 : (b == X) = true <;>
+      by_cases h6 : okTail (c :: r) = true <;> by_cases h7 : sign a = true <;>
+      simp [h1, h2, h3, h4, h5, h6, h7, tw]
+
+def leftRef (s : Str) : Option Caps := (alignedRef '<' s).or (try0 s)
+
+theorem m_seq {α} (a b : Re) (s : Str) (caps : Caps) (k : Str → Caps → Option α) :
+    Re.m (.seq a b) s caps k = Re.m a s caps (fun rest caps' => Re.m b rest caps' k) := by
+  rw [Re.m]
+
+theorem m_opt {α} (r : Re) (s : Str) (caps : Caps) (k : Str → Caps → Option α) :
+    Re.m (.opt r) s caps k = (Re.m r s caps k).or (k s caps) := by
+  rw [Re.m]
+  cases Re.m r s caps k <;> rfl
+
+theorem matchStart_reLeft (s : Str) : Re.matchStart reLeft s = leftRef s := by
+  have h : Re.matchStart reLeft s =
+      (Re.matchStart (reAligned '<') s).or (Re.m tailRe s [] (fun _ c => some c)) := by
+    rw [reLeft_eq, reAligned_eq]
+    unfold Re.matchStart
+    rw [m_seq, m_opt]
+    simp only [m_seq]
+  rw [h, matchStart_reAligned, m_tailRe]
+  rfl
+
+
+/-- drop one final newline -/
+def stripNl : Str → Str
+  | [] => []
+  | [c] => if c = '\n' then [] else [c]
+  | c :: c' :: rest => c :: stripNl (c' :: rest)
+
+theorem stripNl_cons_ne {c : Char} (h : c ≠ '\n') (r : Str) : stripNl (c :: r) = c :: stripNl r := by
+  cases r <;> simp [stripNl, h]
+
+theorem stripNl_nl (r : Str) : stripNl ('\n' :: r) = if r = [] then [] else '\n' :: stripNl r := by
+  cases r <;> simp [stripNl]
+
+theorem isDigit_ne_nl {c : Char} (h : Py.isDigit c = true) : c ≠ '\n' := by
+  intro e; subst e; simp [Py.isDigit] at h
+
+theorem okTail_eq (r : Str) : okTail r = (stripNl r).all Py.isDigit := by
+  induction r with
+  | nil => rfl
+  | cons c r ih =>
+    by_cases hd : Py.isDigit c = true
+    · rw [stripNl_cons_ne (isDigit_ne_nl hd)]
+      unfold okTail at ih ⊢
+      rw [List.dropWhile_cons_of_pos hd, ih]
+      simp [hd]
+    · unfold okTail
+      rw [List.dropWhile_cons_of_neg hd]
+      by_cases hc : c = '\n'
+      · subst hc
+        rw [stripNl_nl]
+        cases r <;> simp [Py.isDigit]
+      · rw [stripNl_cons_ne hc]
+        simp [hd, hc]
+
+theorem tw_eq {r : Str} (h : okTail r = true) : tw r = stripNl r := by
+  induction r with
+  | nil => rfl
+  | cons c r ih =>
+    by_cases hd : Py.isDigit c = true
+    · rw [stripNl_cons_ne (isDigit_ne_nl hd)]
+      unfold tw at ih ⊢
+      rw [List.takeWhile_cons_of_pos hd, ih]
+      unfold okTail at h ⊢
+      rwa [List.dropWhile_cons_of_pos hd] at h
+    · unfold okTail at h
+      rw [List.dropWhile_cons_of_neg hd] at h
+      simp at h
+      obtain ⟨h1, h2⟩ := h
+      subst h1; subst h2
+      rfl
+
+abbrev FmtParts := Option Char × Option Char × Char × Str
+
+def form3 (X : Char) : Str → Option FmtParts
+  | f :: g :: a :: ds =>
+    if dot f && sign g && a == X && ds.all Py.isDigit then some (some f, some g, X, ds) else none
+  | _ => none
+def form2 (X : Char) : Str → Option FmtParts
+  | f :: a :: ds => if dot f && a == X && ds.all Py.isDigit then some (some f, none, X, ds) else none
+  | _ => none
+def formS (X : Char) : Str → Option FmtParts
+  | g :: a :: ds => if sign g && a == X && ds.all Py.isDigit then some (none, some g, X, ds) else none
+  | _ => none
+def form1 (X : Char) : Str → Option FmtParts
+  | a :: ds => if a == X && ds.all Py.isDigit then some (none, none, X, ds) else none
+  | _ => none
+def form0 (s : Str) : Option FmtParts := if s.all Py.isDigit then some (none, none, '<', s) else none
+
+def toCaps : FmtParts → Caps
+  | (fill, sign, _, ds) => [(3, ds), (2, sign.toList), (1, fill.toList)]
+
+theorem sign_ne_nl {c : Char} (h : sign c = true) : c ≠ '\n' := by
+  intro e; subst e; simp [sign] at h
+
+theorem dot_iff {c : Char} : dot c = true ↔ c ≠ '\n' := by simp [dot]
+
+theorem try3_eq {X : Char} (hX : X ≠ '\n') (s : Str) : try3 X s = (form3 X (stripNl s)).map toCaps := by
+  rcases s with _ | ⟨f, _ | ⟨g, _ | ⟨x, r⟩⟩⟩
+  · rfl
+  · simp only [try3, stripNl]; split <;> rfl
+  · simp only [try3, stripNl]; split <;> rfl
+  · simp only [try3, stripNl]
+    by_cases hx : x = '\n'
+    · subst hx
+      have : ('\n' == X) = false := by simp; exact fun e => hX e.symm
+      rw [stripNl_nl]
+      simp only [this, Bool.and_false, Bool.false_and, Bool.false_eq_true, if_false]
+      by_cases hr : r = [] <;> simp [hr, form3, hX.symm]
+    · rw [stripNl_cons_ne hx]
+      simp only [form3, ← okTail_eq]
+      by_cases hok : okTail r = true
+      · simp only [hok, tw_eq hok, Bool.and_true]
+        split <;> simp_all [toCaps]
+      · simp [hok]
+
+theorem try2_eq {X : Char} (hX : X ≠ '\n') (s : Str) : try2 X s = (form2 X (stripNl s)).map toCaps := by
+  rcases s with _ | ⟨f, _ | ⟨x, r⟩⟩
+  · rfl
+  · simp only [try2, stripNl]; split <;> rfl
+  · simp only [try2, stripNl]
+    by_cases hx : x = '\n'
+    · subst hx
+      have : ('\n' == X) = false := by simp; exact fun e => hX e.symm
+      rw [stripNl_nl]
+      simp only [this, Bool.and_false, Bool.false_and, Bool.false_eq_true, if_false]
+      by_cases hr : r = [] <;> simp [hr, form2, hX.symm]
+    · rw [stripNl_cons_ne hx]
+      simp only [form2, ← okTail_eq]
+      by_cases hok : okTail r = true
+      · simp only [hok, tw_eq hok, Bool.and_true]
+        split <;> simp_all [toCaps]
+      · simp [hok]
+
+theorem tryS_eq {X : Char} (hX : X ≠ '\n') (s : Str) : tryS X s = (formS X (stripNl s)).map toCaps := by
+  rcases s with _ | ⟨f, _ | ⟨x, r⟩⟩
+  · rfl
+  · simp only [tryS, stripNl]; split <;> rfl
+  · simp only [tryS, stripNl]
+    by_cases hx : x = '\n'
+    · subst hx
+      have : ('\n' == X) = false := by simp; exact fun e => hX e.symm
+      rw [stripNl_nl]
+      simp only [this, Bool.and_false, Bool.false_and, Bool.false_eq_true, if_false]
+      by_cases hr : r = [] <;> simp [hr, formS, hX.symm]
+    · rw [stripNl_cons_ne hx]
+      simp only [formS, ← okTail_eq]
+      by_cases hok : okTail r = true
+      · simp only [hok, tw_eq hok, Bool.and_true]
+        split <;> simp_all [toCaps]
+      · simp [hok]
+
+theorem try1_eq {X : Char} (hX : X ≠ '\n') (s : Str) : try1 X s = (form1 X (stripNl s)).map toCaps := by
+  rcases s with _ | ⟨x, r⟩
+  · rfl
+  · simp only [try1]
+    by_cases hx : x = '\n'
+    · subst hx
+      have : ('\n' == X) = false := by simp; exact fun e => hX e.symm
+      rw [stripNl_nl]
+      simp only [this, Bool.false_and, Bool.false_eq_true, if_false]
+      by_cases hr : r = [] <;> simp [hr, form1, hX.symm]
+    · rw [stripNl_cons_ne hx]
+      simp only [form1, ← okTail_eq]
+      by_cases hok : okTail r = true
+      · simp only [hok, tw_eq hok, Bool.and_true]
+        split <;> simp_all [toCaps]
+      · simp [hok]
+
+theorem try0_eq (s : Str) : try0 s = (form0 (stripNl s)).map (fun p => [(3, p.2.2.2)]) := by
+  unfold try0 form0
+  rw [← okTail_eq]
+  by_cases hok : okTail s = true
+  · simp [hok, tw_eq hok]
+  · simp [hok]
+
+def alignedForms (X : Char) (s : Str) : Option FmtParts :=
+  (form3 X s).or ((form2 X s).or ((formS X s).or (form1 X s)))
+
+def parse (s : Str) : Option FmtParts :=
+  ((alignedForms '<' s).or (form0 s)).or ((alignedForms '>' s).or (alignedForms '^' s))
+
+theorem map_or {α β} (f : α → β) (a b : Option α) : (a.or b).map f = (a.map f).or (b.map f) := by
+  cases a <;> rfl
+
+theorem alignedRef_eq {X : Char} (hX : X ≠ '\n') (s : Str) :
+    alignedRef X s = (alignedForms X (stripNl s)).map toCaps := by
+  unfold alignedRef alignedForms
+  rw [map_or, map_or, map_or, try3_eq hX, try2_eq hX, tryS_eq hX, try1_eq hX]
+
+theorem alignedForms_some {X : Char} {s : Str} {p : FmtParts} (h : alignedForms X s = some p) :
+    p.2.2.1 = X ∧ ∀ c, p.2.1 = some c → sign c = true := by
+  unfold alignedForms at h
+  simp only [Option.or_eq_some_iff] at h
+  rcases h with h | ⟨_, h | ⟨_, h | ⟨_, h⟩⟩⟩
+  · unfold form3 at h
+    split at h
+    · split at h
+      · cases h; simp_all
+      · cases h
+    · cases h
+  · unfold form2 at h
+    split at h
+    · split at h
+      · cases h; simp
+      · cases h
+    · cases h
+  · unfold formS at h
+    split at h
+    · split at h
+      · cases h; simp_all
+      · cases h
+    · cases h
+  · unfold form1 at h
+    split at h
+    · split at h
+      · cases h; simp
+      · cases h
+    · cases h
+
+/-- what `_apply_string_format` has to do once the spec is parsed -/
+def padApply (obj : AStr) (nid : Nat) (fill : Char) (extend : Bool) (al : Char) (ds : Str)
+    (settings : Option Str) : Except PyErr AStr := do
+  let st : SArg := .str (settings.getD [])
+  let doApply : Bool := match settings with | some s => !s.isEmpty | none => false
+  let obj ← if !extend ∧ doApply then obj.applyRaw nid st none none else pure obj
+  let obj := if ds.isEmpty then obj else
+    let w : Int := Py.digitsVal ds
+    if al = '<' then obj.ljust w fill extend
+    else if al = '>' then obj.rjust w fill extend
+    else obj.center w fill extend
+  if extend ∧ doApply then obj.applyRaw nid st none none else pure obj
+
+def justOf (al : Char) : Just := if al = '<' then .left else if al = '>' then .right else .center
+
+theorem group_toCaps3 (p : FmtParts) : Re.group (toCaps p) 3 = some p.2.2.2 := rfl
+theorem group_toCaps2 (p : FmtParts) : Re.group (toCaps p) 2 = some p.2.1.toList := rfl
+theorem group_toCaps1 (p : FmtParts) : Re.group (toCaps p) 1 = some p.1.toList := rfl
+
+theorem applyJust_toCaps (obj : AStr) (nid : Nat) (p : FmtParts) (settings : Option Str)
+    (hs : ∀ c, p.2.1 = some c → sign c = true) :
+    applyJust obj nid (toCaps p) (justOf p.2.2.1) settings =
+      padApply obj nid (p.1.getD ' ') (p.2.1 != some '-') p.2.2.1 p.2.2.2 settings := by
+  obtain ⟨fill, sg, al, ds⟩ := p
+  have hsg : sg = none ∨ sg = some '+' ∨ sg = some '-' := by
+    cases sg with
+    | none => exact Or.inl rfl
+    | some c =>
+      have := hs c rfl
+      simp [sign] at this
+      rcases this with rfl | rfl
+      · exact Or.inr (Or.inl rfl)
+      · exact Or.inr (Or.inr rfl)
+  have hj : justOf al = if al = '<' then Just.left else if al = '>' then .right else .center := rfl
+  unfold applyJust padApply
+  simp only [group_toCaps1, group_toCaps2, group_toCaps3, Option.getD_some, hj]
+  rcases hsg with rfl | rfl | rfl <;> cases fill <;>
+    by_cases h1 : al = '<' <;> by_cases h2 : al = '>' <;> simp only [h1, h2, if_true, if_false] <;> rfl
+
+/-- `_apply_string_format`, decided by the grammar instead of the three regular expressions -/
+def specApply (obj : AStr) (nid : Nat) (fmt : Str) (settings : Option Str) : Except PyErr AStr :=
+  match parse (stripNl fmt) with
+  | none => .error .valueError
+  | some p => padApply obj nid (p.1.getD ' ') (p.2.1 != some '-') p.2.2.1 p.2.2.2 settings
+
+theorem form0_some {s : Str} {p : FmtParts} (h : form0 s = some p) : p = (none, none, '<', s) := by
+  unfold form0 at h
+  split at h
+  · cases h; rfl
+  · cases h
+
+theorem applyStringFormat_eq (obj : AStr) (nid : Nat) (fmt : Str) (settings : Option Str) :
+    applyStringFormat obj nid fmt settings = specApply obj nid fmt settings := by
+  unfold applyStringFormat specApply parse
+  rw [matchStart_reLeft, matchStart_reAligned, matchStart_reAligned]
+  unfold leftRef
+  rw [alignedRef_eq (by decide), alignedRef_eq (by decide), alignedRef_eq (by decide), try0_eq]
+  cases h1 : alignedForms '<' (stripNl fmt) with
+  | some p =>
+    obtain ⟨ha, hs⟩ := alignedForms_some h1
+    have := applyJust_toCaps obj nid p settings hs
+    rw [ha] at this
+    simp only [Option.map_some, Option.some_or]
+    rw [ha]; exact this
+  | none =>
+    cases h0 : form0 (stripNl fmt) with
+    | some p =>
+      have hp := form0_some h0
+      subst hp
+      simp only [Option.map_some, Option.map_none, Option.none_or, Option.some_or]
+      rfl
+    | none =>
+      cases h2 : alignedForms '>' (stripNl fmt) with
+      | some p =>
+        obtain ⟨ha, hs⟩ := alignedForms_some h2
+        have := applyJust_toCaps obj nid p settings hs
+        rw [ha] at this
+        simp only [Option.map_some, Option.map_none, Option.none_or, Option.some_or]
+        rw [ha]; exact this
+      | none =>
+        cases h3 : alignedForms '^' (stripNl fmt) with
+        | some p =>
+          obtain ⟨ha, hs⟩ := alignedForms_some h3
+          have := applyJust_toCaps obj nid p settings hs
+          rw [ha] at this
+          simp only [Option.map_some, Option.map_none, Option.none_or, Option.some_or]
+          rw [ha]; exact this
+        | none => simp only [Option.map_none, Option.none_or]
+
+/-! ### The spec splitter of `to_str` on a spec whose first part is in the grammar -/
+
+
+def restRe : Re := .seq (.opt (.cap 2 (.seq (.cls (· == ':')) (.star dot)))) .eos
+
+theorem reSpec_eq : reSpec =
+  .seq (.cap 1 (.seq (.opt (.cls dot)) (.seq (.opt (.cls sign)) (.seq (.opt (.cls align)) (.star Py.isDigit)))))
+    restRe := rfl
+
+/-- the text after the justification part: nothing, or `:` and an ansi part without newline -/
+def suffix : Option Str → Str
+  | none => []
+  | some a => ':' :: a
+
+/-- the captures of the spec splitter -/
+def specCaps (core : Str) : Option Str → Caps
+  | none => [(1, core)]
+  | some a => [(2, ':' :: a), (1, core)]
+
+theorem takeWhile_all {p : Char → Bool} {l : Str} (h : l.all p = true) : l.takeWhile p = l := by
+  induction l with
+  | nil => rfl
+  | cons a l ih =>
+    simp only [List.all_cons, Bool.and_eq_true] at h
+    rw [List.takeWhile_cons_of_pos h.1, ih h.2]
+
+theorem restRe_nil (caps : Caps) : Re.m restRe [] caps (fun _ c => some c) = some caps := by
+  unfold restRe
+  simp [Re.m]
+
+theorem restRe_colon (a : Str) (ha : a.all dot = true) (caps : Caps) :
+    Re.m restRe (':' :: a) caps (fun _ c => some c) =
+      some ((2, ':' :: a) :: caps.filter (·.1 != 2)) := by
+  unfold restRe
+  simp only [Re.m, beq_self_eq_true, if_true]
+  rw [Re.go_some _ _ _ _ ((2, ':' :: a) :: caps.filter (·.1 != 2))]
+  rw [takeWhile_all ha]
+  simp
+
+theorem digitsStage (s0 core ds : Str) (ansi : Option Str) (hs0 : s0 = core ++ suffix ansi)
+    (hds : ds.all Py.isDigit = true) (ha : ∀ a, ansi = some a → a.all dot = true) :
+    Re.m.go (ds ++ suffix ansi) []
+      (fun rest caps' =>
+        restRe.m rest ((1, List.take (List.length s0 - List.length rest) s0) ::
+          List.filter (fun x => x.fst != 1) caps') fun _ caps => some caps)
+      (List.takeWhile Py.isDigit (ds ++ suffix ansi)).length =
+    some (specCaps core ansi) := by
+  have htw : List.takeWhile Py.isDigit (ds ++ suffix ansi) = ds := by
+    rw [List.takeWhile_append]
+    cases ansi with
+    | none => simp [suffix, takeWhile_all hds]
+    | some a => simp [suffix, takeWhile_all hds, Py.isDigit]
+  have htk : List.take (s0.length - (suffix ansi).length) s0 = core := by
+    rw [hs0, List.length_append, Nat.add_sub_cancel, List.take_left]
+  apply Re.go_some
+  rw [htw, List.drop_left]
+  simp only [htk]
+  cases ansi with
+  | none => simp [suffix, restRe_nil, specCaps]
+  | some a => simp [suffix, restRe_colon a (ha a rfl), List.filter, specCaps]
+
+theorem align_not_sign {c : Char} (h : align c = true) : sign c = false := by
+  simp [align] at h
+  rcases h with (rfl | rfl) | rfl <;> decide
+
+theorem head_not_sign_align {ds : Str} {ansi : Option Str} (hds : ds.all Py.isDigit = true)
+    {c : Char} {r : Str} (h : ds ++ suffix ansi = c :: r) : sign c = false ∧ align c = false := by
+  have hc : Py.isDigit c = true ∨ c = ':' := by
+    cases ds with
+    | nil =>
+      cases ansi with
+      | none => simp [suffix] at h
+      | some a => simp [suffix] at h; exact Or.inr h.1.symm
+    | cons d ds =>
+      simp at h hds
+      exact Or.inl (h.1 ▸ hds.1)
+  rcases hc with hc | rfl
+  · simp [Py.isDigit] at hc
+    constructor
+    · simp [sign]
+      constructor <;> (intro e; subst e; revert hc; decide)
+    · simp [align]
+      refine ⟨⟨?_, ?_⟩, ?_⟩ <;> (intro e; subst e; revert hc; decide)
+  · decide
+
+/-- the shapes of a non-empty text of the grammar -/
+inductive Shape : Str → Prop
+  | s3 (f g X : Char) (ds : Str) : dot f = true → sign g = true → align X = true →
+      ds.all Py.isDigit = true → Shape (f :: g :: X :: ds)
+  | s2 (f X : Char) (ds : Str) : dot f = true → align X = true → ds.all Py.isDigit = true →
+      Shape (f :: X :: ds)
+  | s1 (X : Char) (ds : Str) : align X = true → ds.all Py.isDigit = true → Shape (X :: ds)
+  | s0 (d : Char) (ds : Str) : Py.isDigit d = true → ds.all Py.isDigit = true → Shape (d :: ds)
+
+theorem matchStart_reSpec {core : Str} (hc : Shape core) (ansi : Option Str)
+    (ha : ∀ a, ansi = some a → a.all dot = true) :
+    Re.matchStart reSpec (core ++ suffix ansi) = some (specCaps core ansi) := by
+  rw [reSpec_eq]
+  unfold Re.matchStart
+  simp only [m_seq]
+  simp only [Re.m]
+  cases hc with
+  | s3 f g X ds hf hg hX hds =>
+    simp only [List.cons_append, hf, hg, hX, if_true,
+      digitsStage (f :: g :: X :: (ds ++ suffix ansi)) (f :: g :: X :: ds) ds ansi rfl hds ha]
+  | s2 f X ds hf hX hds =>
+    simp only [List.cons_append, hf, hX, align_not_sign hX, if_true, Bool.false_eq_true, if_false,
+      digitsStage (f :: X :: (ds ++ suffix ansi)) (f :: X :: ds) ds ansi rfl hds ha]
+  | s1 X ds hX hds =>
+    have hd : dot X = true := by
+      simp [align] at hX
+      rcases hX with (rfl | rfl) | rfl <;> decide
+    have hD := digitsStage (X :: (ds ++ suffix ansi)) (X :: ds) ds ansi rfl hds ha
+    have hH : ∀ c r', ds ++ suffix ansi = c :: r' → sign c = false ∧ align c = false :=
+      fun c r' h => head_not_sign_align hds h
+    simp only [List.cons_append, hd, if_true]
+    generalize ds ++ suffix ansi = r at hD hH ⊢
+    cases r with
+    | nil => simp only [hD]
+    | cons c r =>
+      obtain ⟨h1, h2⟩ := hH c r rfl
+      simp only [h1, h2, Bool.false_eq_true, if_false, hD]
+  | s0 d ds hd hds =>
+    have hdot : dot d = true := by
+      simp only [dot, bne_iff_ne, ne_eq]
+      exact isDigit_ne_nl hd
+    have hD := digitsStage (d :: (ds ++ suffix ansi)) (d :: ds) ds ansi rfl hds ha
+    have hH : ∀ c r', ds ++ suffix ansi = c :: r' → sign c = false ∧ align c = false :=
+      fun c r' h => head_not_sign_align hds h
+    simp only [List.cons_append, hdot, if_true]
+    generalize ds ++ suffix ansi = r at hD hH ⊢
+    cases r with
+    | nil => simp only [hD]
+    | cons c r =>
+      obtain ⟨h1, h2⟩ := hH c r rfl
+      simp only [h1, h2, Bool.false_eq_true, if_false, hD]
+
+theorem align_ne_nl {c : Char} (h : align c = true) : c ≠ '\n' := by
+  intro e; subst e; simp [align] at h
+
+theorem all_digits_no_nl {ds : Str} (h : ds.all Py.isDigit = true) : '\n' ∉ ds := by
+  intro hm
+  have := List.all_eq_true.mp h _ hm
+  simp [Py.isDigit] at this
+
+theorem shape_no_nl {s : Str} (h : Shape s) : '\n' ∉ s := by
+  cases h with
+  | s3 f g X ds hf hg hX hds =>
+    simp only [List.mem_cons, not_or]
+    exact ⟨(dot_iff.mp hf).symm, (sign_ne_nl hg).symm, (align_ne_nl hX).symm, all_digits_no_nl hds⟩
+  | s2 f X ds hf hX hds =>
+    simp only [List.mem_cons, not_or]
+    exact ⟨(dot_iff.mp hf).symm, (align_ne_nl hX).symm, all_digits_no_nl hds⟩
+  | s1 X ds hX hds =>
+    simp only [List.mem_cons, not_or]
+    exact ⟨(align_ne_nl hX).symm, all_digits_no_nl hds⟩
+  | s0 d ds hd hds =>
+    simp only [List.mem_cons, not_or]
+    exact ⟨(isDigit_ne_nl hd).symm, all_digits_no_nl hds⟩
+
+theorem stripNl_of_no_nl {s : Str} (h : '\n' ∉ s) : stripNl s = s := by
+  induction s with
+  | nil => rfl
+  | cons c s ih =>
+    simp only [List.mem_cons, not_or] at h
+    rw [stripNl_cons_ne (fun e => h.1 e.symm), ih h.2]
+
+theorem form3_some {X : Char} {s : Str} {p : FmtParts} (h : form3 X s = some p) :
+    ∃ f g ds, s = f :: g :: X :: ds ∧ dot f = true ∧ sign g = true ∧ ds.all Py.isDigit = true ∧
+      p = (some f, some g, X, ds) := by
+  unfold form3 at h
+  split at h
+  · rename_i f g a ds
+    split at h
+    · rename_i hc
+      simp only [Bool.and_eq_true, beq_iff_eq] at hc
+      cases h
+      obtain ⟨⟨⟨h1, h2⟩, h3⟩, h4⟩ := hc
+      subst h3
+      exact ⟨f, g, ds, rfl, h1, h2, h4, rfl⟩
+    · cases h
+  · cases h
+
+theorem form2_some {X : Char} {s : Str} {p : FmtParts} (h : form2 X s = some p) :
+    ∃ f ds, s = f :: X :: ds ∧ dot f = true ∧ ds.all Py.isDigit = true ∧ p = (some f, none, X, ds) := by
+  unfold form2 at h
+  split at h
+  · rename_i f a ds
+    split at h
+    · rename_i hc
+      simp only [Bool.and_eq_true, beq_iff_eq] at hc
+      cases h
+      obtain ⟨⟨h1, h3⟩, h4⟩ := hc
+      subst h3
+      exact ⟨f, ds, rfl, h1, h4, rfl⟩
+    · cases h
+  · cases h
+
+theorem formS_some {X : Char} {s : Str} {p : FmtParts} (h : formS X s = some p) :
+    ∃ g ds, s = g :: X :: ds ∧ sign g = true ∧ ds.all Py.isDigit = true ∧ p = (none, some g, X, ds) := by
+  unfold formS at h
+  split at h
+  · rename_i g a ds
+    split at h
+    · rename_i hc
+      simp only [Bool.and_eq_true, beq_iff_eq] at hc
+      cases h
+      obtain ⟨⟨h1, h3⟩, h4⟩ := hc
+      subst h3
+      exact ⟨g, ds, rfl, h1, h4, rfl⟩
+    · cases h
+  · cases h
+
+theorem form1_some {X : Char} {s : Str} {p : FmtParts} (h : form1 X s = some p) :
+    ∃ ds, s = X :: ds ∧ ds.all Py.isDigit = true ∧ p = (none, none, X, ds) := by
+  unfold form1 at h
+  split at h
+  · rename_i a ds
+    split at h
+    · rename_i hc
+      simp only [Bool.and_eq_true, beq_iff_eq] at hc
+      cases h
+      obtain ⟨h3, h4⟩ := hc
+      subst h3
+      exact ⟨ds, rfl, h4, rfl⟩
+    · cases h
+  · cases h
+
+theorem alignedForms_shape {X : Char} (hX : align X = true) {s : Str} {p : FmtParts}
+    (h : alignedForms X s = some p) : Shape s := by
+  unfold alignedForms at h
+  simp only [Option.or_eq_some_iff] at h
+  rcases h with h | ⟨_, h | ⟨_, h | ⟨_, h⟩⟩⟩
+  · obtain ⟨f, g, ds, rfl, h1, h2, h3, _⟩ := form3_some h
+    exact Shape.s3 f g X ds h1 h2 hX h3
+  · obtain ⟨f, ds, rfl, h1, h3, _⟩ := form2_some h
+    exact Shape.s2 f X ds h1 hX h3
+  · obtain ⟨g, ds, rfl, h1, h3, _⟩ := formS_some h
+    exact Shape.s2 g X ds (dot_iff.mpr (sign_ne_nl h1)) hX h3
+  · obtain ⟨ds, rfl, h3, _⟩ := form1_some h
+    exact Shape.s1 X ds hX h3
+
+theorem parse_shape {s : Str} {p : FmtParts} (h : parse s = some p) : s = [] ∨ Shape s := by
+  unfold parse at h
+  simp only [Option.or_eq_some_iff] at h
+  rcases h with (h | ⟨_, h⟩) | ⟨_, h | ⟨_, h⟩⟩
+  · exact Or.inr (alignedForms_shape (by decide) h)
+  · unfold form0 at h
+    split at h
+    · rename_i hd
+      cases s with
+      | nil => exact Or.inl rfl
+      | cons d ds =>
+        simp only [List.all_cons, Bool.and_eq_true] at hd
+        exact Or.inr (Shape.s0 d ds hd.1 hd.2)
+    · cases h
+  · exact Or.inr (alignedForms_shape (by decide) h)
+  · exact Or.inr (alignedForms_shape (by decide) h)
+
+theorem parse_no_nl {s : Str} {p : FmtParts} (h : parse s = some p) : '\n' ∉ s := by
+  rcases parse_shape h with rfl | hs
+  · simp
+  · exact shape_no_nl hs
+
+/-- the `format_parts` of `to_str` -/
+def specParts (spec : Str) : Str × Option Str :=
+  match Re.matchStart reSpec spec with
+  | none => (spec, none)
+  | some caps =>
+    match Re.group caps 2 with
+    | some (_ :: rest) => ((Re.group caps 1).getD [], some rest)
+    | _ => ((Re.group caps 1).getD [], none)
+
+theorem applySpec_eq (x : AStr) (nid : Nat) (spec : Str) :
+    applySpec x nid spec =
+      if !(specParts spec).1.isEmpty then applyStringFormat x nid (specParts spec).1 (specParts spec).2
+      else match (specParts spec).2 with
+        | some s => if s.isEmpty then .ok x else x.applyRaw nid (.str s) none none
+        | none => .ok x := rfl
+
+theorem specParts_grammar {core : Str} (hc : Shape core) (ansi : Option Str)
+    (ha : ∀ a, ansi = some a → a.all dot = true) :
+    specParts (core ++ suffix ansi) = (core, ansi) := by
+  unfold specParts
+  rw [matchStart_reSpec hc ansi ha]
+  cases ansi <;> rfl
+
+theorem shape_ne_nil {s : Str} (h : Shape s) : s ≠ [] := by
+  cases h <;> simp
+
+theorem toStr_grammar (x : AStr) {core : Str} {p : FmtParts} (hne : core ≠ []) (hp : parse core = some p)
+    (ansi : Option Str) (ha : ∀ a, ansi = some a → a.all dot = true)
+    (o rs re : Bool) (nid : Nat) :
+    x.toStr (some (core ++ suffix ansi)) o rs re nid =
+      (padApply x nid (p.1.getD ' ') (p.2.1 != some '-') p.2.2.1 p.2.2.2 ansi >>= fun obj =>
+        pure (Render.render obj o rs re)) := by
+  have hs : Shape core := by
+    rcases parse_shape hp with h | h
+    · exact absurd h hne
+    · exact h
+  have hne' : (core ++ suffix ansi).isEmpty = false := by
+    cases core with
+    | nil => exact absurd rfl hne
+    | cons c r => rfl
+  have hce : core.isEmpty = false := by
+    cases core with
+    | nil => exact absurd rfl hne
+    | cons c r => rfl
+  unfold AStr.toStr
+  simp only [hne', Bool.not_false, Bool.not_true, Bool.false_eq_true, false_and, if_false, if_true,
+    Option.getD_some]
+  rw [applySpec_eq, specParts_grammar hs ansi ha]
+  simp only [hce, Bool.not_false, if_true]
+  rw [applyStringFormat_eq]
+  unfold specApply
+  rw [stripNl_of_no_nl (parse_no_nl hp), hp]
+
+/-! ### `stripNl`, declaratively -/
+
+/-- drop one final newline (declarative form of `stripNl`) -/
+def stripNlDecl (s : Str) : Str := if s.getLast? = some '\n' then s.dropLast else s
+
+theorem stripNlDecl_eq (s : Str) : stripNlDecl s = stripNl s := by
+  induction s with
+  | nil => rfl
+  | cons c s ih =>
+    cases s with
+    | nil =>
+      unfold stripNlDecl stripNl
+      by_cases hc : c = '\n' <;> simp [hc]
+    | cons c' rest =>
+      unfold stripNlDecl at ih ⊢
+      rw [stripNl, ← ih]
+      simp only [List.getLast?_cons_cons, List.dropLast_cons_cons]
+      split <;> rfl
+
+/-! ### The grammar as a set of texts -/
+
+/-- the grammar of the justification part as a set of texts:
+    `[fill][sign]align digits*` or `digits*` -/
+def Mem (s : Str) : Prop :=
+  (∃ (fill sg : Option Char) (al : Char) (ds : Str), s = fill.toList ++ sg.toList ++ al :: ds ∧
+     (∀ c, fill = some c → c ≠ '\n') ∧ (∀ c, sg = some c → sign c = true) ∧ align al = true ∧
+     ds.all Py.isDigit = true)
+  ∨ s.all Py.isDigit = true
+
+theorem or_isSome_left {α} {a : Option α} (b : Option α) (h : a.isSome = true) : (a.or b).isSome = true := by
+  cases a with
+  | none => cases h
+  | some _ => rfl
+
+theorem or_isSome_right {α} (a : Option α) {b : Option α} (h : b.isSome = true) : (a.or b).isSome = true := by
+  cases a with
+  | none => exact h
+  | some _ => rfl
+
+theorem alignedForms_isSome {al : Char} {fill sg : Option Char} {ds : Str}
+    (hf : ∀ c, fill = some c → c ≠ '\n') (hs : ∀ c, sg = some c → sign c = true)
+    (hds : ds.all Py.isDigit = true) :
+    (alignedForms al (fill.toList ++ sg.toList ++ al :: ds)).isSome = true := by
+  unfold alignedForms
+  cases fill with
+  | some f =>
+    have hdf : dot f = true := dot_iff.mpr (hf f rfl)
+    cases sg with
+    | some g =>
+      apply or_isSome_left
+      simp [form3, hdf, hs g rfl, hds]
+    | none =>
+      apply or_isSome_right
+      apply or_isSome_left
+      simp [form2, hdf, hds]
+  | none =>
+    cases sg with
+    | some g =>
+      apply or_isSome_right
+      apply or_isSome_right
+      apply or_isSome_left
+      simp [formS, hs g rfl, hds]
+    | none =>
+      apply or_isSome_right
+      apply or_isSome_right
+      apply or_isSome_right
+      simp [form1, hds]
+
+theorem parse_isSome_iff (s : Str) : (parse s).isSome = true ↔ Mem s := by
+  constructor
+  · intro h
+    obtain ⟨p, hp⟩ := Option.isSome_iff_exists.mp h
+    have key : ∀ X, align X = true → alignedForms X s = some p → Mem s := by
+      intro X hX h
+      unfold alignedForms at h
+      simp only [Option.or_eq_some_iff] at h
+      rcases h with h | ⟨_, h | ⟨_, h | ⟨_, h⟩⟩⟩
+      · obtain ⟨f, g, ds, rfl, h1, h2, h3, _⟩ := form3_some h
+        refine Or.inl ⟨some f, some g, X, ds, rfl, ?_, ?_, hX, h3⟩
+        · intro c hc; cases hc; exact dot_iff.mp h1
+        · intro c hc; cases hc; exact h2
+      · obtain ⟨f, ds, rfl, h1, h3, _⟩ := form2_some h
+        refine Or.inl ⟨some f, none, X, ds, rfl, ?_, ?_, hX, h3⟩
+        · intro c hc; cases hc; exact dot_iff.mp h1
+        · intro c hc; cases hc
+      · obtain ⟨g, ds, rfl, h1, h3, _⟩ := formS_some h
+        refine Or.inl ⟨none, some g, X, ds, rfl, ?_, ?_, hX, h3⟩
+        · intro c hc; cases hc
+        · intro c hc; cases hc; exact h1
+      · obtain ⟨ds, rfl, h3, _⟩ := form1_some h
+        refine Or.inl ⟨none, none, X, ds, rfl, ?_, ?_, hX, h3⟩
+        · intro c hc; cases hc
+        · intro c hc; cases hc
+    unfold parse at hp
+    simp only [Option.or_eq_some_iff] at hp
+    rcases hp with (h | ⟨_, h⟩) | ⟨_, h | ⟨_, h⟩⟩
+    · exact key _ (by decide) h
+    · unfold form0 at h
+      split at h
+      · rename_i hd; exact Or.inr hd
+      · cases h
+    · exact key _ (by decide) h
+    · exact key _ (by decide) h
+  · rintro (⟨fill, sg, al, ds, rfl, hf, hs, hal, hds⟩ | hd)
+    · have := alignedForms_isSome (al := al) hf hs hds
+      unfold parse
+      simp only [align, Bool.or_eq_true, beq_iff_eq] at hal
+      rcases hal with (rfl | rfl) | rfl
+      · exact or_isSome_left _ (or_isSome_left _ this)
+      · exact or_isSome_right _ (or_isSome_left _ this)
+      · exact or_isSome_right _ (or_isSome_right _ this)
+    · unfold parse
+      apply or_isSome_left
+      apply or_isSome_right
+      simp [form0, hd]
+
+/-- the only ambiguity of the grammar: a sign character directly before the alignment character is
+    read as the fill character (`'-<5'` fills with `'-'` and extends), so "sign without fill" is
+    never the reading chosen by the library -/
+theorem parse_never_sign_without_fill {s : Str} {sg : Option Char} {al : Char} {ds : Str}
+    (h : parse s = some (none, sg, al, ds)) : sg = none := by
+  have key : ∀ X, alignedForms X s = some (none, sg, al, ds) → sg = none := by
+    intro X h
+    unfold alignedForms at h
+    simp only [Option.or_eq_some_iff] at h
+    rcases h with h | ⟨_, h | ⟨h2, h | ⟨_, h⟩⟩⟩
+    · obtain ⟨f, g, ds', _, _, _, _, hp⟩ := form3_some h
+      cases hp
+    · obtain ⟨f, ds', _, _, _, hp⟩ := form2_some h
+      cases hp
+    · obtain ⟨g, ds', rfl, h1, h3, _⟩ := formS_some h
+      simp [form2, dot_iff.mpr (sign_ne_nl h1), h3] at h2
+    · obtain ⟨ds', _, _, hp⟩ := form1_some h
+      cases hp; rfl
+  unfold parse at h
+  simp only [Option.or_eq_some_iff] at h
+  rcases h with (h | ⟨_, h⟩) | ⟨_, h | ⟨_, h⟩⟩
+  · exact key _ h
+  · have := form0_some h
+    cases this; rfl
+  · exact key _ h
+  · exact key _ h
+
+end Rx
+
+end PadL
